@@ -286,7 +286,18 @@ def corr(case, impl, model):
     return 'length %d vs %d' % (len(x), len(y))
 
 
+SEEN, NONTRIV = set(), set()      # distinct cells judged in this run / found non-trivial (reset by run)
+
+
 def nontrivial(case, impl):
+    r = _nontrivial(case, impl)
+    SEEN.add(case)
+    if r:
+        NONTRIV.add(case)
+    return r
+
+
+def _nontrivial(case, impl):
     """a cell is non-trivial when the object is not a plain heap object or the operation was refused /
     released something: i.e. everything except `ok` with no event on a heap object"""
     pi = parse_impl(impl)
@@ -321,6 +332,7 @@ CORPUS = [
 
 def run(ctx):
     quick = ctx.tier == 'quick'
+    SEEN.clear(); NONTRIV.clear()
     # known_findings.json is assembled by the integrator; until then (and in scratch worktrees) take this
     # property's findings from its own fragment
     frag = os.path.join(vlib.VERIF, 'findings.d', 'C19.json')
@@ -335,7 +347,7 @@ def run(ctx):
         'x (operation: del,del_raw,del_root,dealloc,dealloc_raw,dealloc_root,destruct,sweep + every reallocating member of String '
         'and Tuple) x (collector compiled in / -DCELLO_NGC), plus the matched delete/sweep histories of heap objects, plus seeded '
         'random operation histories (length 2-6) on non-heap objects. A cell is non-trivial unless it is an `ok` step without any '
-        'free/realloc event on a plain heap object; distinct = distinct implementation transcripts per cell'
+        'free/realloc event on a plain heap object; distinct_nontrivial = distinct non-trivial implementation transcripts (cells with identical behaviour share one), nontrivial_cells = number of non-trivial cells'
         % ','.join(ELEM_TYPES + EXTRA_TYPES))
     ctx.assumptions += [
         'C text tied by correspondence only: extracted Gallina model vs library built from the working tree; header words read '
@@ -393,6 +405,9 @@ def run(ctx):
         d.feed(cells[i:i + 3000])
     ctx.cov['exhaustive'] = True
     ctx.cov['matrix_cells'] = len(cells)
+    # distinct_nontrivial (vlib) counts distinct implementation TRANSCRIPTS (many cells share one: every embedded
+    # Int refuses dealloc identically); the number of non-trivial CELLS is recorded next to it
+    ctx.cov['nontrivial_cells'] = 0
     hist = random_histories(ctx.rng, 1500 if quick else 30000)
     d.feed(hist)
     if not quick:
@@ -402,6 +417,8 @@ def run(ctx):
         d2.report()
 
     # the open finding F7 must be re-confirmed on every run by its recorded witness
+    ctx.cov['nontrivial_cells'] = len(NONTRIV)
+    ctx.cov['distinct_cells'] = len(SEEN)
     for sig, key in ((F7_SIG, 'f7_cells'), (F8_SIG, 'f8_cells')):
         ctx.cov[key] = sum(1 for (c, i, m, s, why) in d.oracle_fail if classify(c, i, why) == sig)
         if not ctx.cov[key]:
